@@ -24,6 +24,9 @@ def layout_labels(lay, plan, stats):
         stats.label("write_only", r["acc"] == "w")
     stats.label("map_alignment", lay["al"] > 0)
     stats.label("high_base_address", lay.get("base", 0) >= 256)
+    stats.label("late_registers", lay.get("late", 0) > 0 and len(lay["regs"]) > 1)
+    stats.label("very_long_register", any(e - s > 256 for s, e in plan))
+    stats.label("beyond_13_address_bits", any(e > 8192 for s, e in plan))
     # aliasing under the documented shadow hash (initial shadow size = largest register span)
     for acc in "rw":
         rs = [(s, e) for r, (s, e) in zip(lay["regs"], plan) if acc in r["acc"]]
@@ -43,14 +46,14 @@ def layout_labels(lay, plan, stats):
 def run_case(lay, stim, ov, stats, prop, check_reads, check_writes):
     """Build the multiplexer for ``lay`` with sharing limit ``ov``, drive ``stim`` and compare with
     the model. Returns 'refused' if the configuration is deliberately refused, else facts."""
-    mm, built = gens.build_csr_map(lay)
+    mux, built = gens.build_csr_mux(lay, ov)
+    mm = mux.bus.memory_map
     aw, plan = gens.plan_csr_layout(lay)
     if [(s, e) for _, s, e in built] != plan:
         raise Violation(f"{prop}/layout-plan", f"memory map placed registers at {[(s, e) for _, s, e in built]}, "
                         f"arithmetic says {plan}")
     dw = lay["dw"]
     regs = [Reg(s, e, r["w"], r["acc"]) for r, (s, e) in zip(lay["regs"], plan)]
-    mux = csr.Multiplexer(mm, shadow_overlaps=ov)
     top = sim.wrap(mux)
     cycles, facts = flatten(stim, regs, aw, dw)
     model = MuxModel(dw, regs)
